@@ -907,10 +907,7 @@ fn parse_simple_selector_component(text: &str) -> IResult<&str, SelectorComponen
             tuple((skip_optional_whitespace, tag(">"), skip_optional_whitespace)),
             |_| SelectorComponent::CombChild,
         ),
-        map(
-            tuple((skip_optional_whitespace, tag("*"), skip_optional_whitespace)),
-            |_| SelectorComponent::Star,
-        ),
+        map(tag("*"), |_| SelectorComponent::Star),
         map(parse_ws, |_| SelectorComponent::CombDescendant),
         parse_class,
         parse_hash,
